@@ -150,9 +150,22 @@ func (g *GuardStore) Capabilities() partstore.Capabilities {
 // ---------- GateDB ----------
 
 type Gate struct {
-	mu   sync.Mutex
-	open bool
-	ch   chan struct{} // closed when open
+	mu     sync.Mutex
+	open   bool
+	ch     chan struct{} // closed when open
+	active atomic.Int64  // write transactions begun through a GateDB and not yet finished
+}
+
+// Quiesce waits until no gated write transaction is in flight (call with the gate closed).
+func (g *Gate) Quiesce(timeout time.Duration) bool {
+	deadline := time.Now().Add(timeout)
+	for g.active.Load() != 0 {
+		if time.Now().After(deadline) {
+			return false
+		}
+		time.Sleep(time.Millisecond)
+	}
+	return true
 }
 
 func NewGate() *Gate { return &Gate{ch: make(chan struct{})} }
@@ -198,6 +211,19 @@ func (g *GateDB) BeginTx(ctx context.Context, opts *sql.TxOptions) (*database.Tx
 			if err := g.Gate.wait(ctx); err != nil {
 				return nil, err
 			}
+			// count the worker's write transactions that are in flight, so that Flush can wait
+			// until none of them can commit in the middle of the next harness operation
+			g.Gate.active.Add(1)
+			tx, err := g.Database.BeginTx(ctx, opts)
+			if err != nil {
+				g.Gate.active.Add(-1)
+				return nil, err
+			}
+			var once sync.Once
+			done := func(context.Context) error { once.Do(func() { g.Gate.active.Add(-1) }); return nil }
+			tx.OnAfterCommit(done)
+			tx.OnRollback(done)
+			return tx, nil
 		}
 	}
 	return g.Database.BeginTx(ctx, opts)
@@ -270,6 +296,7 @@ type StackEnv struct {
 }
 
 func NewStackEnv(dir string) *StackEnv {
+	_ = os.RemoveAll(dir) // a crashed earlier run may have left a database with the same store ids
 	Check(os.MkdirAll(dir, 0o755))
 	db := Must(sqlite.OpenDatabase(filepath.Join(dir, "pithos.db")))
 	e := &StackEnv{Dir: dir, DB: db, Gate: NewGate(), Tinks: &TinkPool{Password: "verif-c15"}}
@@ -388,7 +415,10 @@ func (b *BuiltStack) Flush(ctx context.Context, timeout time.Duration) bool {
 		return true
 	}
 	b.env.Gate.Open()
-	defer b.env.Gate.Close()
+	defer func() {
+		b.env.Gate.Close()
+		b.env.Gate.Quiesce(5 * time.Second)
+	}()
 	deadline := time.Now().Add(timeout)
 	for {
 		if b.Pending(ctx) == 0 {
